@@ -55,7 +55,7 @@ func runC01(t *simrt.Tape, o Opts) Outcome {
 		h.weights = [opKinds]int{opEncrypt: 8, opDecrypt: 8, opOpen: 2, opCloseSess: 2, opAdvance: 3, opRevoke: 1, opForeignRotate: 1, opRestart: 1, opCrash: 1, opNewProc: 1}
 		faulty := t.Choose(2, "faulty") == 1
 		if o.Thorough() {
-			h.payloadClasses = []int{2, 0, 1, 3, 4, 5}
+			h.payloadClasses = []int{2, 0, 1, 3, 4, 5, 6}
 		}
 		if legacyWriter {
 			// the deployment before the switch: one process without suffix writes a record per partition
